@@ -39,13 +39,17 @@ Cfg ==
                                 \* first bytes differ from it in bit 5 only
         [leaves |-> { [op |-> o, s |-> x] : o \in {"str", "ins"},
                         x \in {<<97>>, <<65>>, <<91>>, <<123>>, <<64>>, <<233>>, <<201>>, <<97, 233>>, <<91, 65>>, <<>>} }
-                    \cup { [op |-> "range", lo |-> 65, hi |-> 91], [op |-> "range", lo |-> 233, hi |-> 14912], [op |-> "skip", n |-> 1], [op |-> "skip", n |-> 2],
+                    \cup { [op |-> "range", lo |-> 65, hi |-> 91], [op |-> "range", lo |-> 233, hi |-> 14912],
+                           [op |-> "range", lo |-> 98, hi |-> 97], [op |-> "range", lo |-> 123, hi |-> 64],     \* reversed: contain nothing [op |-> "skip", n |-> 1], [op |-> "skip", n |-> 2],
                            [op |-> "charby", set |-> "alpha"], P("eoi") },
          unary |-> {"seq", "lookp", "lookn", "rep", "opt"},
          sigma |-> {97, 65, 91, 123, 64, 96, 233, 201, 14912, 2309}]
     [] Slice = "until" ->       \* skip_until with 0..3 needles: empty needle, shared first bytes, multi-byte first character
         [leaves |-> { [op |-> "until", ss |-> ss] : ss \in UNION { [1..n -> {a, b, ab, none, e, <<233, 97>>, <<97, 97>>}] : n \in 0..3 } }
                     \cup { [op |-> "until", ss |-> ss] : ss \in { <<e, <<252>>>>, <<<<252>>, e>>, <<e, <<252>>, <<223>>>>, <<<<252>>>> } }
+                    \* a scan that does not start at offset 0 (three needles: the memchr3 arm)
+                    \cup { Bin("then", [op |-> "skip", n |-> 1], [op |-> "until", ss |-> ss]) : ss \in [1..3 -> {a, b, ab}] }
+                    \cup { Bin("then", Str(b), [op |-> "until", ss |-> ss]) : ss \in [1..2 -> {a, b, ab}] }
                     \cup {Str(a), P("eoi")},
          unary |-> {"seq", "rule1"},
          sigma |-> {97, 98, 233, 224}]
